@@ -82,6 +82,14 @@ def gen_decls(rng, cfg):
     sp = [s.rstrip('_') for s in cfg['symbol']]
     words = [w for w in TYPE_WORDS if not any(p == 'Foo' + w or p.endswith(w) and len(p) > len(w) for p in ip)]
     tnames = rng.sample(words, rng.choice([2, 3, 4, 5]))
+    nested = None
+    if rng.random() < 0.35:
+        # a type whose name (and symbol prefix) extends another one's on a word boundary
+        nested = rng.choice([('Item', 'ItemList'), ('Text', 'TextBuffer'), ('Stream', 'IOStream')][:2])
+        if all(w in words for w in nested):
+            tnames = [w for w in tnames if w not in nested] + list(nested)
+        else:
+            nested = None
     types = []
     for w in tnames:
         pfx = rng.choice(ip)
@@ -135,12 +143,20 @@ def gen_decls(rng, cfg):
     # functions
     nfun = rng.choice([4, 7, 10])
     seen = set()
-    for i in range(nfun):
+    forced = []
+    if nested:
+        longer = [t for t in types if t.endswith(nested[1])]
+        if longer:
+            forced = [(longer[0], 'ctor'), (longer[0], 'static'), (longer[0], 'ctor-other-ret')]
+    for i in range(nfun + len(forced)):
         spx = rng.choice(sp)
         t = rng.choice(types)
         tus = objgen.uscore(t[len([p for p in ip if t.startswith(p)][0]):]) if any(t.startswith(p) for p in ip) else objgen.uscore(t)
         shape = rng.choice(['ctor', 'ctor', 'method', 'method', 'method', 'static', 'free', 'wrong-first', 'other-prefix', 'pp-first', 'ctor-other-ret',
                             'plural'])
+        if i >= nfun:
+            t, shape = forced[i - nfun]
+            tus = objgen.uscore(t[len([p for p in ip if t.startswith(p)][0]):]) if any(t.startswith(p) for p in ip) else objgen.uscore(t)
         w = rng.choice(FUNC_WORDS)
         other = rng.choice(types)
         if shape == 'ctor':
@@ -309,6 +325,14 @@ def judge(cfg, decls, types, gir):
         if not ok_name:
             # compat quirk: prefix without following underscore keeps the full stripped name with moved-to on the copy
             out.append(('name:member', '%s inside %s named %r; stripped symbol %r, owner prefix %r' % (c, oname, n.get('name'), sorted(names), opfx)))
+        if n.tag in ('constructor', 'function'):
+            # "the type whose prefix it carries": when the prefixes of two types of the namespace nest (item / item_list), a
+            # constructor or static function belongs to the most specific one
+            for t2, node2 in tnode.items():
+                p2 = node2.get('c:symbol-prefix') or objgen.uscore(node2.get('name'))
+                if node2 is not owner and len(p2) > len(opfx) and p2.startswith(opfx + '_') and any(s2.startswith(p2 + '_') for s2 in names):
+                    out.append(('owner:not-most-specific-type', '%s is a %s of %s (prefix %s) although it carries the longer prefix %s of %s' % (
+                        c, n.tag, oname, opfx, p2, node2.get('name'))))
         if n.tag == 'method':
             first = d['params'][0][0] if d['params'] else None
             if first is None or apigen.base_of(first) != oct or first.count('*') != 1:
